@@ -4,7 +4,7 @@ import importlib
 
 from symx import E, Case
 from symx.core import SymInt
-from harness.common import call, newdict
+from harness.common import call, newdict, event_map
 from spec import iec_tables as T
 
 import dali.frame as F
@@ -262,8 +262,7 @@ def _event_kwargs(ctx, scheme):
 def _decode_event(ctx, ev, scheme, itype):
     m = None
     if scheme == "device_instance":
-        m = helpers.DeviceInstanceTypeMapper()
-        m._mapping = newdict(ctx)
+        m = event_map(ctx)
         m.add_type(short_address=ev.short_address.address, instance_number=ev.instance_number,
                    instance_type=itype)
     return call(C.from_frame, ev.frame, dev_inst_map=m)
